@@ -141,6 +141,12 @@ pub enum Action {
 	Settle,
 	/// close everything, mine until all monitors have drained, sweep, then the wealth oracle
 	Liquidate,
+	/// C06: node `n` gets the `age`-th newest of its revoked commitments on `chan` mined, with the
+	/// HTLC transactions selected by `same_block` in the same block and those of `later` handed to
+	/// the miner afterwards; the victim sees the chain `v_late` blocks late
+	Cheat { n: usize, chan: usize, age: u32, same_block: u32, later: u32, v_late: u8 },
+	/// perturbations of the liquidation phase (see justice::LiqPlan)
+	LiqPlan { holds: Vec<(u32, u32)>, restarts: Vec<(u32, usize)>, fees: Vec<(u32, usize, u32)> },
 }
 
 impl Action {
@@ -173,6 +179,8 @@ impl Action {
 			Action::Reorg { .. } => "Reorg",
 			Action::Settle => "Settle",
 			Action::Liquidate => "Liquidate",
+			Action::Cheat { .. } => "Cheat",
+			Action::LiqPlan { .. } => "LiqPlan",
 		}
 	}
 	pub fn actor(&self) -> usize {
@@ -195,11 +203,12 @@ impl Action {
 			| Action::ArmCrash { n, .. }
 			| Action::Restart { n, .. }
 			| Action::Sweep { n }
+			| Action::Cheat { n, .. }
 			| Action::Abandon { n, .. } => *n,
 			Action::Deliver { to, .. } => *to,
 			Action::Disconnect { a, .. } | Action::Reconnect { a, .. } => *a,
 			Action::Send { from, .. } => *from,
-			Action::Mine { .. } | Action::Reorg { .. } | Action::Settle | Action::Liquidate => 99,
+			Action::Mine { .. } | Action::Reorg { .. } | Action::Settle | Action::Liquidate | Action::LiqPlan { .. } => 99,
 		}
 	}
 }
@@ -392,6 +401,8 @@ pub struct Node {
 	pub view: Vec<bitcoin::BlockHash>,
 	pub shadows: BTreeMap<[u8; 32], crate::chainstyle::Shadow>,
 	pub check_styles: bool,
+	/// the node's operator turned cheater and took the node down for good (profile `justice`)
+	pub gone: bool,
 }
 
 #[derive(Clone, Debug)]
@@ -475,6 +486,13 @@ pub struct Pay {
 	pub rehydrated: bool,
 }
 
+thread_local! {
+	/// configuration and every action attempted so far of the run executing on this thread: lets
+	/// a library panic that escapes outside an action (e.g. inside a read-only query of the
+	/// scheduler or the fingerprint) still be reported with a replayable trace
+	pub static CURRENT_RUN: std::cell::RefCell<Option<(Config, Vec<Action>)>> = std::cell::RefCell::new(None);
+}
+
 pub struct World {
 	pub cfg: Config,
 	pub chain: ChainModel,
@@ -497,6 +515,10 @@ pub struct World {
 	pub sample: Vec<String>,
 	pub in_settle: bool,
 	pub oracle: crate::oracle::OracleState,
+	/// C06: (node, chan) -> the node's archived holder commitments
+	pub archive: BTreeMap<(usize, usize), Vec<crate::justice::ArchEntry>>,
+	pub cheat: Option<crate::justice::CheatState>,
+	pub liq_plan: Option<crate::justice::LiqPlan>,
 }
 
 pub fn node_user_config(chan_type: ChanType, nc: &NodeCfg) -> UserConfig {
@@ -574,6 +596,7 @@ fn build_live(node: &Node, manager_bytes: Option<&[u8]>) -> Result<Live, String>
 
 impl World {
 	pub fn new(cfg: Config) -> World {
+		CURRENT_RUN.with(|c| *c.borrow_mut() = Some((cfg.clone(), Vec::new())));
 		let mut nodes = Vec::new();
 		for (idx, nc) in cfg.nodes.iter().enumerate() {
 			let mut seed = [0u8; 32];
@@ -631,6 +654,7 @@ impl World {
 				view: Vec::new(),
 				shadows: BTreeMap::new(),
 				check_styles: cfg.profile == "chainstyle",
+				gone: false,
 			};
 			node.live = Some(build_live(&node, None).expect("fresh node"));
 			nodes.push(node);
@@ -657,6 +681,9 @@ impl World {
 			sample: Vec::new(),
 			in_settle: false,
 			oracle: Default::default(),
+			archive: BTreeMap::new(),
+			cheat: None,
+			liq_plan: None,
 		}
 	}
 
@@ -672,6 +699,13 @@ impl World {
 			eprintln!("[{}] VIOLATION {} {}: {}", self.step, property, oracle, msg);
 		}
 		let step = self.step;
+		// profile `justice` decides C06: what the victim broadcasts and recovers there is the
+		// punishment of a revoked commitment (C06-1 validity, C06-3 fees, C06-4 balances / sweeps)
+		if self.cfg.profile == "justice" && self.cheat.is_some() && property == "C07" {
+			let o = oracle.replacen("C07-", "C06/C07-", 1);
+			self.out.violate("C06", &o, step, msg);
+			return;
+		}
 		self.out.violate(property, oracle, step, msg);
 	}
 
@@ -1105,11 +1139,20 @@ impl World {
 			None => false,
 		};
 		if self.strict_offchain && !expected {
-			self.violate(
-				"C01",
-				"C01-3 protocol error in honest operation",
-				format!("node {} sent {} to node {} on channel {}: {}", n, kind, to, chan, data),
-			);
+			let msg = format!("node {} sent {} to node {} on channel {}: {}", n, kind, to, chan, data);
+			// The emitter may already have closed the channel for a reason the simulator has not been
+			// told yet: its ChannelClosed event is still queued, and the error message announcing the
+			// close was dropped by a disconnection. The verdict waits for that event.
+			let gone = self
+				.mgr(n)
+				.map(|m| !m.list_channels().iter().any(|d| d.channel_id == chan))
+				.unwrap_or(false);
+			if let (true, Some(c)) = (gone, self.chan_by_id(&chan)) {
+				self.oracle.suspect_errors.push((n, c, msg));
+				self.out.bump("probe:error_verdict_deferred_to_channel_closed_event");
+				return;
+			}
+			self.violate("C01", "C01-3 protocol error in honest operation", msg);
 		}
 	}
 
@@ -1422,6 +1465,9 @@ impl World {
 			self.out.bump("probe:channel_closed_outdated_manager");
 		}
 		if reason.contains("closing_signed negotiation failed to finish within two timer ticks") {
+			if let Some(c) = self.chan_by_id(&channel_id) {
+				self.oracle.suspect_errors.retain(|(sn, sc, _)| !(*sn == n && *sc == c));
+			}
 			// see on_error_emitted: documented protective timeout, treated as requested
 			if let Some(c) = ci {
 				if self.chans[c].force_closed_by.is_none() {
@@ -1916,7 +1962,20 @@ impl World {
 			}
 			let r = self.chain.admit(&tx, true);
 			self.out.bump(&format!("relay:{}", admit_name(&r)));
-			self.note(&format!("node {} relays {} {} -> {:?}", n, kind, tx.compute_txid(), r));
+			if std::env::var("VERIF_TRACE").is_ok() {
+				let ins: Vec<String> = tx.input.iter().map(|i| format!("{}:{}", &i.previous_output.txid.to_string()[..8], i.previous_output.vout)).collect();
+				self.note(&format!(
+					"node {} relays {} {} -> {:?} [in {} fee {:?} lt {} h {}]",
+					n,
+					kind,
+					tx.compute_txid(),
+					r,
+					ins.join(","),
+					self.chain.fee_of(&tx),
+					tx.lock_time.to_consensus_u32(),
+					self.chain.tip_height()
+				));
+			}
 			self.oracle_on_broadcast(n, &tx, &kind, &r);
 		}
 		true
@@ -1925,7 +1984,7 @@ impl World {
 	pub fn do_mine(&mut self, count: u32) -> bool {
 		let txs = self.chain.mine_all();
 		for t in txs.iter() {
-			self.note(&format!("mined {}", t.compute_txid()));
+			self.note(&format!("mined {} at {}", t.compute_txid(), self.chain.tip_height()));
 		}
 		if count > 1 {
 			self.chain.mine_empty(count - 1);
@@ -2033,6 +2092,11 @@ impl World {
 		if self.dead {
 			return false;
 		}
+		CURRENT_RUN.with(|c| {
+			if let Some((_, t)) = c.borrow_mut().as_mut() {
+				t.push(a.clone());
+			}
+		});
 		self.step += 1;
 		self.clock += 1;
 		simcore_set_now(self.clock);
@@ -2113,7 +2177,18 @@ impl World {
 				self.liquidate();
 				true
 			},
+			Action::Cheat { n, chan, age, same_block, later, v_late } => {
+				self.do_cheat(*n, *chan, *age, *same_block, *later, *v_late)
+			},
+			Action::LiqPlan { holds, restarts, fees } => self.do_liq_plan(crate::justice::LiqPlan {
+				holds: holds.clone(),
+				restarts: restarts.clone(),
+				fees: fees.clone(),
+			}),
 		};
+		if self.cfg.profile == "justice" && !self.dead && self.cheat.is_none() {
+			self.archive_commitments();
+		}
 		// an action during which the run died (library panic) is part of the trace
 		if did || self.dead {
 			self.out.bump(&format!("action:{}", a.kind()));
